@@ -112,7 +112,9 @@ NOTES = {
   "always, getters return the value written, rebuilt spec equal — each path "
   "cross-checked against a plain int with the model value.  C14.3: every "
   "explored spelling of a workbook text: no internal error and the stored "
-  "member definition parses to the member written."),
+  "member definition parses to the member written.  C14.4 (\"runnable\"): "
+  "every accepted mutated workflow is started on the real engine and run to "
+  "rest: final or paused state, only declared errors (found F28)."),
  'C15': ('tenant isolation',
   "C15.1 runs every get / load / list function of the 11 secured resource "
   "types on minidb: the real WHERE clause (incl. `_secure_query` and the "
